@@ -5,7 +5,7 @@ from . import helpers_rules as H
 from . import alias_rules as A
 
 META = {
-    'claim_added': 'Also decided: node texts are hashed only for ScalarNodes (I7), format strings are literals (I10), table lookups are not guarded by membership in another table (I1b), converting handlers cannot fail themselves, recogniser exits return pairs, whatever resolves to bool/float (and, as known findings, int/timestamp) is in the domain of the PyYAML constructor that runs.',
+    'claim_added': 'Also decided: node texts are hashed only for ScalarNodes (I7), format strings are literals (I10), table lookups are not guarded by membership in another table (I1b), converting handlers cannot fail themselves, recogniser exits return pairs, whatever resolves to bool/float (and, as known findings, int/timestamp) is in the domain of the PyYAML constructor that runs. Round 3: every call of a value (a parameter or local holding a user class or callable) on the load side sits in a converting `except Exception`; the cycle check dominates every other walk over the composed tree (R08.13).',
     'level': 'other',
     'technique': 'static: interprocedural escape sets (explicit raises minus enclosing handlers, through name-resolved callees, '
                  'dead code pruned by the CFG), converting-handler check at every user-code call site, closed table of implicit '
